@@ -136,6 +136,9 @@ STRUCT = [
     {'Ramey Production Wellbore Model': '0', 'Production Wellbore Temperature Drop': '5'},
     {'Productivity Index': None, 'Injectivity Index': None, 'Reservoir Impedance': '0.1'},
     {'Number of Segments': '3', 'Gradient 2': '30', 'Gradient 3': '80', 'Thickness 1': '1', 'Thickness 2': '1.5'},
+    # values with many decimals: two writers that format the same quantity differently must show
+    {'Number of Segments': '3', 'Gradient 1': '61.2345678', 'Gradient 2': '33.3333333', 'Gradient 3': '78.9012345', 'Thickness 1': '1.23456', 'Thickness 2': '0.98765',
+     'Reservoir Depth': '3.14159', 'Injection Temperature': '51.23456', 'Production Flow Rate per Well': '41.98765', 'Ambient Temperature': '17.65432'},
     {'Overpressure Percentage': '150', 'Overpressure Depletion Rate': '5', 'Injection Reservoir Depth': '1000', 'Injection Reservoir Inflation Rate': '10',
      'Injection Reservoir Temperature': '90'},
     {'Well Drilling and Completion Capital Cost': '5', 'Injection Well Drilling and Completion Capital Cost': '3', 'Surface Piping Length': '5'},
@@ -217,7 +220,7 @@ def plan(tier, seed):
     # closed-loop (SBT) runs print through the standard writer with their own well-field lines
     for fam in F.sbt_grid(shapes=((6, 2, 1),) if tier == 'quick' else ((6, 2, 1), (3, 4, 2))):
         P.append({'fam': fam, 'changes': {}})
-        for st in STRUCT[:5] + STRUCT[11:13]:
+        for st in STRUCT[:5] + STRUCT[12:14]:
             P.append({'fam': fam, 'changes': dict(st)})
     return P
 
